@@ -621,78 +621,6 @@ theorem witness_proposal_sweep :
 
 /-! ### … at the level of `process_message` (every fuel, through rollback and re-processing) -/
 
-theorem ownMessage_res (c : Cl) (e ne : Ev) : (ownMessage c e).2 ≠ .proposalCommitted ne := by
-  unfold ownMessage
-  repeat' split
-  all_goals (intro h; simp [returnOwnCommit] at h)
-
-theorem notBetterResult_res (c : Cl) (e ne : Ev) : (notBetterResult c e).2 ≠ .proposalCommitted ne := by
-  unfold notBetterResult
-  repeat' split
-  all_goals (intro h; simp [returnOwnCommit, failUnprocessable] at h)
-
-theorem processCommitP_res (c : Cl) (e : Ev) (b : Body) (sw : List Nat) (ne : Ev) : (processCommitP c e b sw).2 ≠ .proposalCommitted ne := by
-  unfold processCommitP
-  repeat' split
-  all_goals (intro h; simp at h)
-
-/-- one pass: `Proposal(UpdateGroupResult)` comes out of `process_proposal` only -/
-theorem step1P_committed (retry : Cl → Option (Cl × Res)) (nx : Nat) (c : Cl) (x : PEv) (ne : Ev)
-    (hretry : ∀ c1 r, retry c1 = some r → r.2 = .proposalCommitted ne → propKind x ≠ none)
-    (h : (step1P retry nx c x).2 = .proposalCommitted ne) :
-    ∃ p, propKind x = some p ∧ c.g.active = true ∧
-      (processProposal nx { withSecret c with g := { (withSecret c).g with consumed := x.e.cipher :: (withSecret c).g.consumed } } x.e p).2 = .proposalCommitted ne := by
-  unfold step1P at h
-  simp only at h
-  split at h
-  · simp at h
-  · split at h
-    · simp at h
-    · rename_i _ hact
-      split at h
-      · simp at h
-      · split at h
-        · rename_i p hp
-          split at h
-          · simp [failUnprocessable] at h
-          · split at h
-            · exact absurd h (ownMessage_res _ _ _)
-            · split at h
-              · simp [failUnprocessable] at h
-              · exact ⟨p, hp, by simpa using hact, h⟩
-        · rename_i hp
-          split at h
-          · -- a commit: whatever comes back from the re-processing is the same (non-proposal) event's result
-            split at h
-            · unfold wrongEpochCommit at h
-              split at h
-              · split at h
-                · split at h
-                  · rename_i c1 _ _ r hr
-                    exact absurd hp (hretry c1 r hr h)
-                  · exact absurd h (notBetterResult_res _ _ _)
-                · exact absurd h (notBetterResult_res _ _ _)
-              · exact absurd h (notBetterResult_res _ _ _)
-            · split at h
-              · split at h
-                · simp at h
-                · exact absurd h (ownMessage_res _ _ _)
-              · split at h
-                · simp [failUnprocessable] at h
-                · split at h
-                  · simp [failUnprocessable] at h
-                  · exact absurd h (processCommitP_res _ _ _ _ _)
-          · simp [failUnprocessable] at h
-          · split at h
-            · simp [failUnprocessable] at h
-            · split at h
-              · simp [failUnprocessable] at h
-              · split at h
-                · exact absurd h (ownMessage_res _ _ _)
-                · split at h
-                  · simp [failUnprocessable] at h
-                  · simp [storeApp] at h
-
 /-- what `auto_commit_only_self_leave_deliver` concludes about receiver `c`, event `x` and the staged commit `ne` -/
 def AutoOK (c : Cl) (x : PEv) (ne : Ev) : Prop :=
   propKind x = some (.remove x.e.sender) ∧ c.g.active = true ∧ isAdmin c.g c.id = true ∧ c.g.pending = none ∧
